@@ -219,7 +219,8 @@ func c15Requests(c *sim.Case) {
 		default:
 			hreq := &envoy.AttributeContext_HttpRequest{
 				Scheme: sim.PickStr(c, "scheme", "https", "http", "", "ftp", "https://"),
-				Host:   sim.PickStr(c, "host", "app.test", "", "app.test:443", "[::1", "a b", "app.test:99999", strings.Repeat("h", 70000)),
+				Host: sim.PickStr(c, "host", "app.test", "", "app.test:443", "[::1", "a b", "app.test:99999", strings.Repeat("h", 70000),
+					"m\u00fcnchen.example", "\xff\xfe.test", "app.test\x00", "app.test@evil.test", "\u202eapp.test", "xn--mnchen-3ya.example", "app.test/..", "%41pp.test"),
 				Path:   hostilePath(c),
 				Method: sim.PickStr(c, "method", "GET", "POST", "", "\x00"),
 			}
